@@ -32,3 +32,116 @@ Definition ex_sched : list action :=
    AStep 0 false; AStep 1 false; AStep 0 false; AStep 0 false; AStep 1 false; AStep 1 false; AStep 1 false; AStep 1 false]
   ++ List.concat (List.repeat [AStep 0 false; AStep 3 false; AStep 4 false; AStep 1 true; AStep 0 false] 40).
 Definition ex_final := reach true ex_prog (fun t => if Nat.leb 3 t && Nat.leb t 4 then 2 else 0) ex_sched.
+
+(* ------------------------------------------------------------------------------------------ *)
+(* A CloseConnToCollector call returns only when all background work has stopped.
+   In the model CloseConnToCollector (close_step .. wait = true) returns ONLY through wg.Wait on
+   EVERY path - also when another thread won the Swap. That shape is what the "wait discipline"
+   on the regenerated table (exporter_closers / exporter_spawns, Model/WaitTab.v) ties to the
+   code: every return path of every exported function that closes the stop channel passes
+   through wg.Wait(), and every goroutine started on behalf of the exporter is counted by wg. *)
+From Verif.Model Require Import WaitTab.
+
+Lemma exp_wait_discipline : wait_discipline exporter_f_wg exporter_closers exporter_spawns = true.
+Proof. vm_compute. reflexivity. Qed.
+
+(* thread t (the application or a closer) is inside a CloseConnToCollector call that returns at
+   its next step *)
+Definition close_returning (x : xstate) (t : nat) : Prop :=
+  t <> 1 /\ t <> 2 /\
+  exists c h, cph_of x t = Some c /\ close_step t true (sh x) c = (h, CReturned).
+
+Theorem exp_close_waits : forall udp prog n sched t,
+  let x := reach udp prog n sched in
+  close_returning x t -> wg (sh x) = 0 /\ refr x = RDone /\ chk x = KDone.
+Proof.
+  intros udp prog n sched t x (_ & _ & c & h & _ & E).
+  destruct (exp_wg udp prog n sched) as (W & _ & _). fold x in W.
+  assert (wg (sh x) = 0) as Z.
+  { destruct c; cbn in E.
+    - destruct (is_closed (sh x)); discriminate.
+    - discriminate.
+    - discriminate.
+    - destruct (wg (sh x)); [reflexivity | discriminate]. }
+  split; [exact Z|]. rewrite Z in W. unfold bg in W.
+  destruct (refr x); destruct (chk x); cbn in W; try discriminate; split; reflexivity.
+Qed.
+
+(* once the background threads are done they stay done and never write again *)
+Lemma log_result_wire : forall me h s r, wire (log_result me h s r) = wire h.
+Proof.
+  intros me h s r. unfold log_result. destruct me; [reflexivity|].
+  destruct r; try reflexivity. destruct s; try reflexivity. destruct (rounds h); reflexivity.
+Qed.
+Lemma send_step_wire_from : forall me h p h' r t, send_step me h p = (h', r) -> t <> me ->
+  filter (from t) (wire h') = filter (from t) (wire h).
+Proof.
+  intros me h p h' r t E Ht. destruct p as [s|s|s|s hdr|s ok]; cbn in E.
+  - destruct s as [tid|tid nrec].
+    + destruct (memN tid (templates h)); inversion E; subst; reflexivity.
+    + destruct (memN tid (templates h)); inversion E; subst; [reflexivity | apply f_equal, log_result_wire].
+  - destruct (send_lock h); inversion E; subst; reflexivity.
+  - inversion E; subst; reflexivity.
+  - destruct (closed h); inversion E; subst; rewrite log_result_wire; [reflexivity|].
+    cbn. unfold from at 1. cbn. destruct (Nat.eqb_spec me t); [congruence | reflexivity].
+  - inversion E; subst; reflexivity.
+Qed.
+
+Lemma bg_done_step : forall x a, refr x = RDone -> chk x = KDone ->
+  refr (xstep x a) = RDone /\ chk (xstep x a) = KDone /\
+  filter (from 1) (wire (sh (xstep x a))) = filter (from 1) (wire (sh x)) /\
+  filter (from 2) (wire (sh (xstep x a))) = filter (from 2) (wire (sh x)).
+Proof.
+  intros x a R K. destruct a as [t c| | |]; try (cbn; auto; fail).
+  destruct t as [|[|[|t]]].
+  - (* the application *)
+    cbn. unfold step_app. destruct (a_ph x) as [|p|cp].
+    + destruct (a_todo x) as [|[s|] r]; cbn; auto.
+    + destruct (send_step 0 (sh x) p) as [h' [p'| ok |]] eqn:E; cbn; auto;
+        repeat split; auto; eapply send_step_wire_from; eauto.
+    + destruct (close_step 0 true (sh x) cp) as [h' [c'| |]] eqn:E; cbn; auto;
+        pose proof (close_step_frame _ _ _ _ _ _ E) as (F1 & _); rewrite F1; auto.
+  - cbn. unfold step_refr. rewrite R. auto.
+  - cbn. unfold step_chk. rewrite K. auto.
+  - cbn. unfold step_closer. destruct (closers x (S (S (S t)))) as [[|k] [cp|]]; cbn; auto.
+    + destruct (close_step (S (S (S t))) true (sh x) cp) as [h' [c'| |]] eqn:E; cbn; auto;
+        pose proof (close_step_frame _ _ _ _ _ _ E) as (F1 & _); rewrite F1; auto.
+    + destruct (close_step (S (S (S t))) true (sh x) cp) as [h' [c'| |]] eqn:E; cbn; auto;
+        pose proof (close_step_frame _ _ _ _ _ _ E) as (F1 & _); rewrite F1; auto.
+Qed.
+
+Lemma bg_done_run : forall s2 x, refr x = RDone -> chk x = KDone ->
+  refr (xrun x s2) = RDone /\ chk (xrun x s2) = KDone /\
+  filter (from 1) (wire (sh (xrun x s2))) = filter (from 1) (wire (sh x)) /\
+  filter (from 2) (wire (sh (xrun x s2))) = filter (from 2) (wire (sh x)).
+Proof.
+  induction s2 as [|a r IH]; intros x R K; [cbn; auto|].
+  change (xrun x (a :: r)) with (xrun (xstep x a) r).
+  destruct (bg_done_step x a R K) as (R' & K' & W1 & W2).
+  destruct (IH _ R' K') as (R2 & K2 & V1 & V2).
+  split; [exact R2|]. split; [exact K2|]. split; [rewrite V1; exact W1 | rewrite V2; exact W2].
+Qed.
+
+(* "stops all background work, and no byte is written [by it] afterwards": whenever ANY
+   CloseConnToCollector call - the first, a repeated or a concurrent one, from any goroutine -
+   returns, the refresher and the connection checker have terminated, and in every continuation
+   they stay terminated and the wire receives no further message from them *)
+Theorem exp_close_returns_quiescent : forall udp prog n sched t s2,
+  let x := reach udp prog n sched in
+  close_returning x t ->
+  wg (sh x) = 0 /\ refr (xrun x s2) = RDone /\ chk (xrun x s2) = KDone /\
+  filter (from 1) (wire (sh (xrun x s2))) = filter (from 1) (wire (sh x)) /\
+  filter (from 2) (wire (sh (xrun x s2))) = filter (from 2) (wire (sh x)).
+Proof.
+  intros udp prog n sched t s2 x H.
+  destruct (exp_close_waits udp prog n sched t H) as (Z & R & K). fold x in Z, R, K.
+  split; [exact Z|]. apply bg_done_run; assumption.
+Qed.
+
+(* non-vacuity: in the example run a closer is about to return from wg.Wait at some point *)
+Definition ex_closing := reach true ex_prog (fun t => if Nat.leb 3 t && Nat.leb t 4 then 2 else 0)
+  (firstn 50 ex_sched).
+Lemma ex_closing_returning : close_returning ex_closing 3 /\ close_returning ex_closing 4.
+Proof.
+  split; (split; [discriminate|]; split; [discriminate|]; exists CWait; eexists; split; vm_compute; reflexivity).
+Qed.
